@@ -84,7 +84,12 @@ def run(tier):
             break
         d = run_one(exe, cfg, min(left, 900 if tier == "thorough" else 120))
         label = ",".join("%s=%s" % kv for kv in cfg.items())
-        if d.get("timeout") or d.get("crash"):
+        if d.get("timeout"):
+            # the explorer did not report within its own deadline + 60 s (machine overloaded): nothing is known about this configuration
+            exhaustive = False
+            per_cfg.append({"cfg": label, "not_completed": "explorer exceeded its deadline"})
+            continue
+        if d.get("crash"):
             ck.violation("C23:harness-crash@" + label, "explorer did not return a result: %s" % d, {"cfg": cfg})
             continue
         for k in tot:
